@@ -198,6 +198,7 @@ fn replay(args: &[String]) -> i32 {
     for v in &out.violations {
         println!("violation property={} kind={} signature={} :: {}", v.property, v.kind, v.signature, v.detail);
     }
+    println!("RESULT {}", json!({"violations": out.violations.iter().map(|v| json!({"property": v.property, "kind": v.kind, "signature": v.signature, "class": v.class(), "detail": v.detail})).collect::<Vec<_>>()}));
     let same = out.violations.iter().any(|v| v.class() == class);
     if same {
         if ctx.strict && !hashes.is_empty() && hashes != ctx.log_hashes {
